@@ -163,6 +163,22 @@ def gen_call(rng, o, t, is_cfg, prev=None):
     return c
 
 
+def node_objects(x):
+    """the compound node objects of a proposition (each once)"""
+    out, seen = [], set()
+    def walk(n):
+        if isinstance(n, pg.AtLeast) and id(n) not in seen:
+            seen.add(id(n)); out.append(n)
+            for p_ in n.propositions:
+                walk(p_)
+    walk(x)
+    return out
+
+
+def key_of(i):
+    return i if isinstance(i, str) else "#" + repr(i)
+
+
 def do_case(ctx, inp):
     objs, calls = inp["objs"], inp["calls"]
     live = [build(a) for a in objs]
@@ -224,14 +240,25 @@ def do_case(ctx, inp):
                 comp_ids = set(compound_ids(kp["snap"]))
                 shaped = c["k"] in ("evaluate", "evalprops", "assume") and ch and all(cid in named and cid in comp_ids and c["I"][cid] == nb for cid, nb in ch)
                 if shaped:
+                    # … which is the known finding only if the changed nodes of the earlier result ARE nodes of the receiver (the
+                    # leak re-binds the variable of the receiver's own node objects); an earlier result that merely has nodes
+                    # with those ids (a negation, a rebuilt copy) cannot be reached by it
+                    recv_nodes = {id(n) for n in node_objects(o)}
+                    moved = [n for n, b0 in kp["nodes"] if (int(n.bounds.lower), int(n.bounds.upper)) != b0]
+                    shaped = all(id(n) in recv_nodes for n in moved)
+                    if not shaped:
+                        ctx.tags["earlier-result-changed-through-a-node-the-receiver-does-not-hold"] += 1
+                if shaped:
                     # the known leak writes into sub-proposition objects that the receiver shares with an earlier result
                     ctx.fail("earlier-result-changed-by-query", {"step": step, "call": c, "changed": ch}, known=F_C09A)
                     kp["snap"] = now
+                    kp["nodes"] = [(n, (int(n.bounds.lower), int(n.bounds.upper))) for n in node_objects(kp["obj"])]
                 else:
                     ctx.fail("earlier-result-changed-by-query", {"step": step, "call": c, "result_of_step": kp["step"], "changed": ch,
                                                                  "before": kp["snap"], "after": now}); return
         for r_ in got:
-            kept.append({"obj": r_, "snap": snap(r_), "step": step})
+            kept.append({"obj": r_, "snap": snap(r_), "step": step,
+                         "nodes": [(n, (int(n.bounds.lower), int(n.bounds.upper))) for n in node_objects(r_)]})
         if len(kept) > 6: del kept[0]
         if c["k"] in ("evaluate", "evalprops", "assume") and any(a in compound_ids(t) for a in c.get("I", {})):
             named_cid[i] = True
